@@ -9,7 +9,7 @@ From Util Require Import Common.Base Common.ListLemmas Routine.Model Routine.Pro
 (* frames *)
 Definition same_aux (s s' : st) : Prop :=
   sv s' = sv s /\ ncb s' = ncb s /\ scmp s' = scmp s /\ bo s' = bo s /\ clock s' = clock s /\ cblog s' = cblog s /\
-  waiters s' = waiters s /\ sfn s' = sfn s /\ sval s' = sval s.
+  waiters s' = waiters s /\ sfn s' = sfn s /\ sval s' = sval s /\ dead s' = dead s.
 
 Definition tm_api (l l' : list timer) : Prop :=
   length l' = length l /\
@@ -26,7 +26,7 @@ Definition fr (s s' : st) : Prop :=
 Lemma same_aux_refl s : same_aux s s. Proof. repeat split. Qed.
 Lemma same_aux_trans a b c : same_aux a b -> same_aux b c -> same_aux a c.
 Proof.
-  unfold same_aux. intros (A1 & A2 & A3 & A4 & A5 & A6 & A7 & A8 & A9) (B1 & B2 & B3 & B4 & B5 & B6 & B7 & B8 & B9).
+  unfold same_aux. intros (A1 & A2 & A3 & A4 & A5 & A6 & A7 & A8 & A9 & A10) (B1 & B2 & B3 & B4 & B5 & B6 & B7 & B8 & B9 & B10).
   repeat split; congruence.
 Qed.
 
@@ -117,9 +117,29 @@ Proof.
   destruct (_ && negb (Nat.eqb c 0)); [eapply fr_trans; [apply fr_start_rec | apply fr_do_bcast] | apply fr_do_bcast].
 Qed.
 
-Lemma fr_set_routine_locked s f arg : fr s (fst (set_routine_locked repaired s f arg)).
+Lemma fr_norm s : fr s (norm s).
+Proof. unfold norm. destruct (root_dead s (kctx s)); [apply fr_set_kctx | apply fr_refl]. Qed.
+
+(* a WaitExited section changes only its waiter, the broadcast, and forgets a cancelled root context *)
+Lemma wait_section_frame s a :
+  let s' := wait_section s a in
+  recs s' = recs s /\ timers s' = timers s /\ routine s' = routine s /\ insts s' = insts s /\ bo s' = bo s /\ cblog s' = cblog s /\
+  sv s' = sv s /\ sfn s' = sfn s /\ sval s' = sval s /\ ncb s' = ncb s /\ clock s' = clock s /\ dead s' = dead s /\
+  (kctx s' = kctx s \/ (kctx s' = 0 /\ root_dead s (kctx s) = true)).
 Proof.
-  unfold set_routine_locked.
+  unfold wait_section. destruct (nth_error (waiters s) a) as [w|]; [|repeat split; auto]. destruct (wpcv w); try (repeat split; auto; fail).
+  assert (G : forall S, let S' := wait_sect_at S a w in
+              recs S' = recs S /\ timers S' = timers S /\ routine S' = routine S /\ insts S' = insts S /\ bo S' = bo S /\ cblog S' = cblog S /\
+              sv S' = sv S /\ sfn S' = sfn S /\ sval S' = sval S /\ ncb S' = ncb S /\ clock S' = clock S /\ dead S' = dead S /\ kctx S' = kctx S).
+  { intros S. unfold wait_sect_at. destruct (getch (b S)) as [b' ch].
+    destruct (match routine S with Some r => _ | None => _ end); [|destruct (wcanc w)]; repeat split; auto. }
+  destruct (G (norm s)) as (A1 & A2 & A3 & A4 & A5 & A6 & A7 & A8 & A9 & A10 & A11 & A12 & A13). cbv zeta.
+  rewrite A1, A2, A3, A4, A5, A6, A7, A8, A9, A10, A11, A12, A13. unfold norm. destruct (root_dead s (kctx s)) eqn:Ed; repeat split; auto.
+Qed.
+
+Lemma fr_set_routine_locked_n s f arg : fr s (fst (set_routine_locked_n repaired s f arg)).
+Proof.
+  unfold set_routine_locked_n.
   set (ph := match routine s with Some p => _ | None => (s, None, false) end).
   assert (Hph : fr s (fst (fst ph))).
   { unfold ph. destruct (routine s) as [p|]; [|apply fr_refl]. cbn [fst].
@@ -131,14 +151,20 @@ Proof.
   - destruct wasReset; [eapply fr_trans; [exact Hph | apply fr_do_bcast] | exact Hph].
 Qed.
 
-Lemma fr_restart_routine s : fr s (fst (restart_routine repaired s)).
+Lemma fr_set_routine_locked s f arg : fr s (fst (set_routine_locked repaired s f arg)).
+Proof. unfold set_routine_locked. eapply fr_trans; [apply fr_norm | apply fr_set_routine_locked_n]. Qed.
+
+Lemma fr_restart_routine_n s : fr s (fst (restart_routine_n repaired s)).
 Proof.
-  unfold restart_routine. destruct (routine s) as [r|]; [|apply fr_refl].
+  unfold restart_routine_n. destruct (routine s) as [r|]; [|apply fr_refl].
   destruct (Nat.eqb _ 0); cbn [fst].
   - eapply fr_trans; [apply fr_cancel_inst | apply fr_setr].
   - eapply fr_trans; [apply fr_cancel_inst|]. eapply fr_trans; [apply fr_setr|]. eapply fr_trans; [apply fr_setr|].
     eapply fr_trans; [apply fr_start_rec | apply fr_do_bcast].
 Qed.
+
+Lemma fr_restart_routine s : fr s (fst (restart_routine repaired s)).
+Proof. unfold restart_routine. eapply fr_trans; [apply fr_norm | apply fr_restart_routine_n]. Qed.
 
 Lemma fr_update_sr s : fr s (fst (update_sr repaired s)).
 Proof.
@@ -218,7 +244,7 @@ Lemma getr_spawn s1 r ctx w' q : r < length (recs s1) ->
 Proof. intros H. unfold spawn. rewrite getr_setr_eq by exact H. reflexivity. Qed.
 
 Lemma insts_spawn s1 r ctx w' :
-  insts (spawn s1 r ctx w') = insts s1 ++ [{| irec := r; iwait := w'; ipcv := IGate0; icanc := false; iexit := false;
+  insts (spawn s1 r ctx w') = insts s1 ++ [{| irec := r; iwait := w'; ipcv := IGate0; icanc := root_dead s1 ctx; iexit := false;
                                               iarg := rarg (getr s1 r); iroot := ctx |}].
 Proof. reflexivity. Qed.
 
@@ -238,7 +264,7 @@ Definition spawnB (n : nat) (s' : st) : Prop :=
   length (insts s') = S n /\
   exists r, routine s' = Some r /\ r < length (recs s') /\ rctx (getr s' r) = Some n /\ rerr (getr s' r) = ONil /\
             rsucc (getr s' r) = false /\ rexited (getr s' r) = false /\ rretry (getr s' r) = None /\ rfn (getr s' r) <> 0 /\
-            exists x, nth_error (insts s') n = Some x /\ ipcv x = IGate0 /\ irec x = r /\ icanc x = false.
+            exists x, nth_error (insts s') n = Some x /\ ipcv x = IGate0 /\ irec x = r.
 
 Definition keepA (s s' : st) : Prop :=
   length (insts s') = length (insts s) /\ routine s' = routine s /\
@@ -339,16 +365,16 @@ Proof.
   - right. split; [exact Ec|]. rewrite length_insts_stop_rec in E. exact E.
 Qed.
 
-Lemma kctx_restart_routine s : kctx (fst (restart_routine repaired s)) = kctx s.
+Lemma kctx_restart_routine_n s : kctx (fst (restart_routine_n repaired s)) = kctx s.
 Proof.
-  unfold restart_routine. destruct (routine s) as [r|]; [|reflexivity].
+  unfold restart_routine_n. destruct (routine s) as [r|]; [|reflexivity].
   destruct (cancel_inst_other s (rcancel (getr s r))) as [_ [_ [_ [C _]]]].
   destruct (Nat.eqb _ 0); cbn [fst kctx do_bcast set_b]; [exact C|]. rewrite kctx_start_rec. exact C.
 Qed.
 
-Lemma routine_restart_routine s : routine (fst (restart_routine repaired s)) = routine s.
+Lemma routine_restart_routine_n s : routine (fst (restart_routine_n repaired s)) = routine s.
 Proof.
-  unfold restart_routine. destruct (routine s) as [r|] eqn:Er; [|exact Er].
+  unfold restart_routine_n. destruct (routine s) as [r|] eqn:Er; [|exact Er].
   destruct (cancel_inst_other s (rcancel (getr s r))) as [_ [C _]].
   destruct (Nat.eqb _ 0); cbn [fst routine do_bcast set_b]; [rewrite routine_setr; congruence|].
   rewrite routine_start_rec, !routine_setr. congruence.
@@ -373,10 +399,10 @@ Proof.
   destruct (Nat.eqb_spec q r) as [->|Hne]; auto 10.
 Qed.
 
-Lemma restart_routine_cls s : InvW s ->
-  keepA s (fst (restart_routine repaired s)) \/ (kctx s <> 0 /\ spawnB (length (insts s)) (fst (restart_routine repaired s))).
+Lemma restart_routine_n_cls s : InvW s ->
+  keepA s (fst (restart_routine_n repaired s)) \/ (kctx s <> 0 /\ spawnB (length (insts s)) (fst (restart_routine_n repaired s))).
 Proof.
-  intros HW. unfold restart_routine. destruct (routine s) as [r|] eqn:Er; [|left; apply keepA_refl].
+  intros HW. unfold restart_routine_n. destruct (routine s) as [r|] eqn:Er; [|left; apply keepA_refl].
   assert (Hl : r < length (recs s)) by (unfold InvW in HW; now rewrite Er in HW).
   set (x := getr s r). set (s1 := cancel_inst s (rcancel x)).
   assert (K1 : keepA s s1) by (apply keepA_ext; [apply length_insts_cancel_inst | apply routine_cancel_inst | apply recs_cancel_inst]).
@@ -395,6 +421,22 @@ Proof.
   - left. rewrite E. exact K.
   - right. split; [change (kctx s2) with (kctx s1) in Ek; unfold s1 in Ek; now rewrite kctx_cancel_inst in Ek|].
     destruct K as (KL & _). rewrite KL in E. exact E.
+Qed.
+
+Lemma kctx_restart_routine s : kctx (fst (restart_routine repaired s)) = kctx (norm s).
+Proof. unfold restart_routine. apply kctx_restart_routine_n. Qed.
+Lemma routine_restart_routine s : routine (fst (restart_routine repaired s)) = routine s.
+Proof. unfold restart_routine. rewrite routine_restart_routine_n. apply routine_norm. Qed.
+Lemma keepA_norm s : keepA s (norm s).
+Proof. apply keepA_ext; [now rewrite insts_norm | apply routine_norm | apply recs_norm]. Qed.
+Lemma InvW_norm s : InvW s -> InvW (norm s).
+Proof. unfold InvW. now rewrite routine_norm, recs_norm. Qed.
+Lemma restart_routine_cls s : InvW s ->
+  keepA s (fst (restart_routine repaired s)) \/ (kctx (norm s) <> 0 /\ spawnB (length (insts s)) (fst (restart_routine repaired s))).
+Proof.
+  intros HW. unfold restart_routine. destruct (restart_routine_n_cls (norm s) (InvW_norm s HW)) as [K | [Hk B]].
+  - left. eapply keepA_trans; [apply keepA_norm | exact K].
+  - right. split; [exact Hk|]. now rewrite insts_norm in B.
 Qed.
 
 Lemma kctx_timer_cb s t : kctx (timer_cb repaired s t) = kctx s.
@@ -442,7 +484,7 @@ Definition detach (s : st) : st * option nat * bool :=
   end.
 
 Lemma set_routine_locked_eq s f arg :
-  set_routine_locked repaired s f arg =
+  set_routine_locked_n repaired s f arg =
   let '(s1, prevExit, wasReset) := detach s in
   if negb (Nat.eqb f 0) then
     let r := length (recs s1) in
@@ -485,11 +527,11 @@ Proof.
     + destruct (q - length (recs s1)) as [|k] eqn:E; [lia|]. destruct k; reflexivity.
 Qed.
 
-Lemma set_routine_locked_cls s f arg : Inv s ->
-  let s' := fst (set_routine_locked repaired s f arg) in
+Lemma set_routine_locked_n_cls s f arg : Inv s ->
+  let s' := fst (set_routine_locked_n repaired s f arg) in
   kctx s' = kctx s /\ (routine s' = None <-> f = 0) /\
   ((kctx s <> 0 /\ spawnB (length (insts s)) s') \/ freshC (length (insts s)) s') /\
-  (forall j, fst (snd (set_routine_locked repaired s f arg)) = Some j -> S j = length (insts s)).
+  (forall j, fst (snd (set_routine_locked_n repaired s f arg)) = Some j -> S j = length (insts s)).
 Proof.
   intros HI. assert (HW : InvW s) by apply HI. rewrite set_routine_locked_eq.
   pose proof (detach_facts2 s HW) as D. destruct (detach s) as [[s1 prevExit] wasReset]. cbn [fst snd] in D.
@@ -517,10 +559,20 @@ Proof.
       * left. split; [exact Ek|]. change (length (insts s3)) with (length (insts s1)) in E. rewrite Li in E. exact E.
 Qed.
 
+Lemma set_routine_locked_cls s f arg : Inv s ->
+  let s' := fst (set_routine_locked repaired s f arg) in
+  kctx s' = kctx (norm s) /\ (routine s' = None <-> f = 0) /\
+  ((kctx (norm s) <> 0 /\ spawnB (length (insts s)) s') \/ freshC (length (insts s)) s') /\
+  (forall j, fst (snd (set_routine_locked repaired s f arg)) = Some j -> S j = length (insts s)).
+Proof.
+  intros HI. unfold set_routine_locked. pose proof (set_routine_locked_n_cls (norm s) f arg (Inv_norm s HI)) as H.
+  rewrite insts_norm in H. exact H.
+Qed.
+
 (* ------------------------------------------------------------------ *)
 (* the further invariants *)
 Definition CK (s : st) : Prop :=
-  forall r i, routine s = Some r -> rctx (getr s r) = Some i -> kctx s <> 0 /\ S i = length (insts s).
+  forall r i, routine s = Some r -> rctx (getr s r) = Some i -> S i = length (insts s).
 Definition T5 (s : st) : Prop := forall r, routine s = Some r -> rfn (getr s r) <> 0.
 Definition T2 (s : st) : Prop :=
   forall r t, rretry (getr s r) = Some t ->
@@ -542,14 +594,14 @@ Qed.
 Lemma tm_ext_refl l : tm_ext l l. Proof. intros t x H. eauto. Qed.
 
 (* ---- CK / T5 from the classification ---- *)
-Lemma CK_keepA s s' : CK s -> keepA s s' -> kctx s' = kctx s -> CK s'.
+Lemma CK_keepA s s' : CK s -> keepA s s' -> CK s'.
 Proof.
-  intros H (L & R & K) Ek r i Hr Hc. rewrite R in Hr. destruct (K r Hr) as (_ & _ & _ & [E|E] & _); [|congruence].
-  rewrite E in Hc. rewrite Ek, L. exact (H r i Hr Hc).
+  intros H (L & R & K) r i Hr Hc. rewrite R in Hr. destruct (K r Hr) as (_ & _ & _ & [E|E] & _); [|congruence].
+  rewrite E in Hc. rewrite L. exact (H r i Hr Hc).
 Qed.
-Lemma CK_spawnB n s' : spawnB n s' -> kctx s' <> 0 -> CK s'.
+Lemma CK_spawnB n s' : spawnB n s' -> CK s'.
 Proof.
-  intros (L & r & Hr & _ & Hc & _) Hk q i Hq Hi. rewrite Hr in Hq. inversion Hq; subst q. rewrite Hc in Hi. inversion Hi; subst i. auto.
+  intros (L & r & Hr & _ & Hc & _) q i Hq Hi. rewrite Hr in Hq. inversion Hq; subst q. rewrite Hc in Hi. inversion Hi; subst i. auto.
 Qed.
 Lemma CK_freshC n s' : freshC n s' -> CK s'.
 Proof.
@@ -575,13 +627,7 @@ Qed.
 
 Lemma CK_set_context s c restart : InvW s -> CK s -> CK (fst (set_context repaired s c restart)).
 Proof.
-  intros HW H. destruct (set_context_cls s c restart HW) as [K | [Hc B]].
-  - intros r i Hr Hi. pose proof K as (L & R & KK). rewrite R in Hr. destruct (KK r Hr) as (_ & _ & _ & [E|E] & _); [|congruence].
-    pose proof Hi as Hi'. rewrite E in Hi'. destruct (H r i Hr Hi') as [Hk Hn]. rewrite L. split; [|exact Hn].
-    rewrite kctx_set_context. intros ->.
-    assert (Hl : r < length (recs s)) by (unfold InvW in HW; now rewrite Hr in HW).
-    rewrite (set_context_clear s restart r Hk Hr Hl) in Hi. discriminate.
-  - eapply CK_spawnB; [exact B|]. now rewrite kctx_set_context.
+  intros HW H. destruct (set_context_cls s c restart HW) as [K | [Hc B]]; [eapply CK_keepA; eauto | eapply CK_spawnB; eauto].
 Qed.
 
 (* ---- T2 ---- *)
@@ -649,7 +695,7 @@ Proof.
   destruct (Nat.ltb q (length (recs s1))); [now apply H|]. destruct (Nat.eqb q (length (recs s1))); discriminate.
 Qed.
 
-Lemma T2_set_routine_locked s f arg : T2 s -> T2 (fst (set_routine_locked repaired s f arg)).
+Lemma T2_set_routine_locked_n s f arg : T2 s -> T2 (fst (set_routine_locked_n repaired s f arg)).
 Proof.
   intros H. rewrite set_routine_locked_eq. pose proof (T2_detach s H) as D.
   destruct (detach s) as [[s1 prevExit] wasReset]. cbn [fst] in D.
@@ -661,9 +707,14 @@ Proof.
   - destruct wasReset; [apply (T2_same s1); auto | exact D].
 Qed.
 
-Lemma T2_restart_routine s : T2 s -> T2 (fst (restart_routine repaired s)).
+Lemma T2_norm s : T2 s -> T2 (norm s).
+Proof. intros H. unfold norm. destruct (root_dead s (kctx s)); [now apply (T2_same s) | exact H]. Qed.
+Lemma T2_set_routine_locked s f arg : T2 s -> T2 (fst (set_routine_locked repaired s f arg)).
+Proof. intros H. unfold set_routine_locked. now apply T2_set_routine_locked_n, T2_norm. Qed.
+
+Lemma T2_restart_routine_n s : T2 s -> T2 (fst (restart_routine_n repaired s)).
 Proof.
-  intros H. unfold restart_routine. destruct (routine s) as [r|]; [|exact H].
+  intros H. unfold restart_routine_n. destruct (routine s) as [r|]; [|exact H].
   set (x := getr s r). set (s1 := cancel_inst s (rcancel x)).
   assert (H1 : T2 s1) by (apply (T2_same s); [apply recs_cancel_inst | apply timers_cancel_inst | exact H]).
   set (s2 := setr s1 r _).
@@ -674,6 +725,9 @@ Proof.
   assert (H3 : T2 s3) by (apply T2_setr; [exact H2|]; cbn [rretry rexited rerr]; intros t Ht; now apply H2).
   apply (T2_same (start_rec repaired s3 r (kctx s3) (rexit y) true)); [reflexivity | reflexivity | now apply T2_start_rec].
 Qed.
+
+Lemma T2_restart_routine s : T2 s -> T2 (fst (restart_routine repaired s)).
+Proof. intros H. unfold restart_routine. now apply T2_restart_routine_n, T2_norm. Qed.
 
 Lemma T2_update_sr s : T2 s -> T2 (fst (update_sr repaired s)).
 Proof.
@@ -771,24 +825,25 @@ Proof.
     unfold fire. destruct (tst x); try reflexivity. destruct (N.leb _ _); reflexivity.
   - now apply T2_timer_cb.
   - now apply (T2_same s).
-  - unfold wait_section. destruct (nth_error (waiters s) a) as [w|]; [|exact H]. destruct (wpcv w); try exact H.
-    destruct (getch (b s)) as [b' ch]. destruct (match routine s with Some r => _ | None => _ end); [|destruct (wcanc w)]; now apply (T2_same s).
+  - destruct (wait_section_frame s a) as (A1 & A2 & _). now apply (T2_same s).
   - unfold wait_wake. destruct (nth_error (waiters s) a) as [w|]; [|exact H]. destruct (wpcv w); try exact H.
     destruct (closed (b s) ch); [now apply (T2_same s) | exact H].
   - unfold wait_cancel. destruct (nth_error (waiters s) a) as [w|]; [|exact H]. destruct (wpcv w); try exact H; now apply (T2_same s).
   - unfold wait_errch. destruct (nth_error (waiters s) a) as [w|]; [|exact H]. destruct (wpcv w); try exact H; now apply (T2_same s).
+  - now apply (T2_same s).
 Qed.
 
 (* ---- events that touch neither records nor the routine ---- *)
 Definition light (e : ev) : bool :=
   match e with
-  | EProceed _ _ | EWake _ _ | EReturn _ _ | EAdvance _ | EWaitExited _ | EWSect _ | EWWake _ | EWCancel _ | EWErr _ _ => true
+  | EProceed _ _ | EWake _ _ | EReturn _ _ | EAdvance _ | EWaitExited _ | EWSect _ | EWWake _ | EWCancel _ | EWErr _ _
+  | ECancelRoot _ => true
   | _ => false
   end.
 
 Lemma light_frame s e : light e = true ->
   let s' := step repaired s e in
-  recs s' = recs s /\ routine s' = routine s /\ kctx s' = kctx s /\ length (insts s') = length (insts s) /\ bo s' = bo s /\
+  recs s' = recs s /\ routine s' = routine s /\ (kctx s' = kctx s \/ kctx s' = 0) /\ length (insts s') = length (insts s) /\ bo s' = bo s /\
   cblog s' = cblog s /\ sv s' = sv s /\ sfn s' = sfn s /\ sval s' = sval s /\ ncb s' = ncb s /\
   ((exists d, e = EAdvance d) \/ (timers s' = timers s /\ clock s' = clock s)).
 Proof.
@@ -804,12 +859,13 @@ Proof.
     repeat split; auto; rewrite insts_seti; apply length_set_nth.
   - repeat split; eauto.
   - repeat split; auto.
-  - unfold wait_section. destruct (nth_error (waiters s) a) as [w|]; [|repeat split; auto]. destruct (wpcv w); try (repeat split; auto; fail).
-    destruct (getch (b s)) as [b' ch]. destruct (match routine s with Some r => _ | None => _ end); [|destruct (wcanc w)]; repeat split; auto.
+  - destruct (wait_section_frame s a) as (A1 & A2 & A3 & A4 & A5 & A6 & A7 & A8 & A9 & A10 & A11 & A12 & A13).
+    repeat split; auto; try congruence. destruct A13 as [A13 | [A13 _]]; auto.
   - unfold wait_wake. destruct (nth_error (waiters s) a) as [w|]; [|repeat split; auto]. destruct (wpcv w); try (repeat split; auto; fail).
     destruct (closed (b s) ch); repeat split; auto.
   - unfold wait_cancel. destruct (nth_error (waiters s) a) as [w|]; [|repeat split; auto]. destruct (wpcv w); repeat split; auto.
   - unfold wait_errch. destruct (nth_error (waiters s) a) as [w|]; [|repeat split; auto]. destruct (wpcv w); repeat split; auto.
+  - unfold cancel_root. cbn [recs routine kctx insts bo cblog sv sfn sval ncb timers clock set_insts set_dead]. rewrite map_length. repeat split; auto.
 Qed.
 
 (* ---- bookkeeping keeps every record's instance context and function ---- *)
@@ -835,7 +891,7 @@ Qed.
 Lemma CK_bookkeep s i : CK s -> CK (bookkeep s i).
 Proof.
   intros H r j Hr Hj. destruct (bookkeep_frame s i) as (N1 & R1 & K1). unfold ninst in N1.
-  rewrite R1 in Hr. rewrite (proj1 (bookkeep_keeps s i r)) in Hj. rewrite K1, N1. exact (H r j Hr Hj).
+  rewrite R1 in Hr. rewrite (proj1 (bookkeep_keeps s i r)) in Hj. rewrite N1. exact (H r j Hr Hj).
 Qed.
 Lemma T5_bookkeep s i : T5 s -> T5 (bookkeep s i).
 Proof.
@@ -868,17 +924,15 @@ Qed.
 (* an epoch: the result of setRoutineLocked satisfies the current-record invariants outright *)
 Lemma CK_epoch s f arg : Inv s -> CK (fst (set_routine_locked repaired s f arg)).
 Proof.
-  intros HI. destruct (set_routine_locked_cls s f arg HI) as (Ek & _ & [[Hk B] | C] & _).
-  - eapply CK_spawnB; [exact B | congruence].
-  - eapply CK_freshC; exact C.
+  intros HI. destruct (set_routine_locked_cls s f arg HI) as (Ek & _ & [[Hk B] | C] & _); [eapply CK_spawnB | eapply CK_freshC]; eauto.
 Qed.
 Lemma T5_epoch s f arg : Inv s -> T5 (fst (set_routine_locked repaired s f arg)).
 Proof.
   intros HI. destruct (set_routine_locked_cls s f arg HI) as (_ & _ & [[_ B] | C] & _); [eapply T5_spawnB | eapply T5_freshC]; eauto.
 Qed.
 
-Lemma CK_same s s' : routine s' = routine s -> recs s' = recs s -> kctx s' = kctx s -> length (insts s') = length (insts s) -> CK s -> CK s'.
-Proof. intros R E K L H. unfold CK, getr in *. rewrite R, E, K, L. exact H. Qed.
+Lemma CK_same s s' : routine s' = routine s -> recs s' = recs s -> length (insts s') = length (insts s) -> CK s -> CK s'.
+Proof. intros R E L H. unfold CK, getr in *. rewrite R, E, L. exact H. Qed.
 Lemma T5_same s s' : routine s' = routine s -> recs s' = recs s -> T5 s -> T5 s'.
 Proof. intros R E H. unfold T5, getr in *. rewrite R, E. exact H. Qed.
 
@@ -894,8 +948,8 @@ Proof.
     + now apply CK_set_context.
     + destruct (sv s); [exact H | now apply CK_epoch].
     + destruct (restart_routine_cls s HW) as [K | [Hk B]].
-      * eapply CK_keepA; eauto. apply kctx_restart_routine.
-      * eapply CK_spawnB; [exact B|]. now rewrite kctx_restart_routine.
+      * eapply CK_keepA; eauto.
+      * eapply CK_spawnB; eauto.
     + destruct (sv s); [|exact H]. rewrite set_state_locked_fst. destruct (state_equal _ _ _); [exact H|].
       rewrite update_sr_fst. apply CK_do_bcast, CK_epoch. now apply Inv_set_sval.
     + destruct (sv s); [|exact H]. rewrite swap_value_fst. cbn zeta. destruct (negb _); [|exact H].
@@ -904,8 +958,8 @@ Proof.
     + destruct (sv s); [|exact H]. rewrite update_sr_fst. apply CK_epoch. now apply Inv_set_sfn.
     + now apply CK_bookkeep.
     + destruct (timer_cb_cls s t HW) as [K | [Hk B]].
-      * eapply CK_keepA; eauto. apply kctx_timer_cb.
-      * eapply CK_spawnB; [exact B|]. now rewrite kctx_timer_cb.
+      * eapply CK_keepA; eauto.
+      * eapply CK_spawnB; eauto.
 Qed.
 
 Lemma step_T5 s e : Inv s -> T5 s -> T5 (step repaired s e).
@@ -1042,18 +1096,18 @@ Lemma SV1_same s s' : sv s' = sv s -> routine s' = routine s -> sfn s' = sfn s -
 Proof. intros A B C D H. unfold SV1. rewrite A, B, C, D. exact H. Qed.
 
 Lemma SV1_fr s s' : fr s s' -> routine s' = routine s -> SV1 s -> SV1 s'.
-Proof. intros ((A & _ & _ & _ & _ & _ & _ & C & D) & _) B. now apply SV1_same. Qed.
+Proof. intros ((A & _ & _ & _ & _ & _ & _ & C & D & _) & _) B. now apply SV1_same. Qed.
 
 Lemma SV1_update_sr s : Inv s -> SV1 (fst (update_sr repaired s)).
 Proof.
   intros HI Hv. rewrite update_sr_fst in *.
   destruct (negb (Nat.eqb (sfn s) 0) && negb (N.eqb (sval s) 0)) eqn:E.
   - destruct (set_routine_locked_cls s (sfn s) (sval s) HI) as (_ & [R1 R2] & _).
-    destruct (fr_set_routine_locked s (sfn s) (sval s)) as ((_ & _ & _ & _ & _ & _ & _ & C & D) & _). rewrite C, D, E.
+    destruct (fr_set_routine_locked s (sfn s) (sval s)) as ((_ & _ & _ & _ & _ & _ & _ & C & D & _) & _). rewrite C, D, E.
     destruct (routine (fst (set_routine_locked repaired s (sfn s) (sval s)))) as [r|]; [reflexivity|].
     specialize (R1 eq_refl). apply andb_true_iff in E as [E _]. rewrite R1 in E. discriminate.
   - destruct (set_routine_locked_cls s 0 (sval s) HI) as (_ & [R1 R2] & _).
-    destruct (fr_set_routine_locked s 0 (sval s)) as ((_ & _ & _ & _ & _ & _ & _ & C & D) & _). rewrite C, D, E.
+    destruct (fr_set_routine_locked s 0 (sval s)) as ((_ & _ & _ & _ & _ & _ & _ & C & D & _) & _). rewrite C, D, E.
     now rewrite (R2 eq_refl).
 Qed.
 
